@@ -365,7 +365,19 @@ const (
 // then it is back.  The client has to re-establish the connection by itself and
 // later calls have to succeed, however long the outage was.
 func runC12Outage(long bool) (events []sx.V, fails []c12Fail, bad string) {
-	const D = 300 * time.Millisecond
+	var slow bool
+	D := 300 * time.Millisecond
+	for try := 0; try < 2; try++ {
+		events, fails, bad, slow = runC12OutageD(long, D)
+		if !slow {
+			break
+		}
+		D *= 4
+	}
+	return events, fails, bad
+}
+
+func runC12OutageD(long bool, D time.Duration) (events []sx.V, fails []c12Fail, bad string, slow bool) {
 	outage := c12OutageShort
 	key := "no-reconnect-after-short-outage"
 	if long {
@@ -374,7 +386,7 @@ func runC12Outage(long bool) (events []sx.V, fails []c12Fail, bad string) {
 	fail := func(key, what string) { fails = append(fails, c12Fail{key, what}) }
 	e, err := newC12Env(1, D)
 	if err != nil {
-		return nil, nil, "env: " + err.Error()
+		return nil, nil, "env: " + err.Error(), slow
 	}
 	defer e.close()
 	l := e.srv.lns[0]
@@ -397,10 +409,12 @@ func runC12Outage(long bool) (events []sx.V, fails []c12Fail, bad string) {
 			q, got = e.srv.query(c.key)
 		}
 		d := uint64(i+1)<<11 | 8
+		answered := false
 		if got {
 			at(sx.L(sx.A("recv"), sx.Nat(i), sx.Nat(0)))
 			if e.srv.emit(0, c12Answer(q.id, c12Data(d))) == nil {
 				at(sx.L(sx.A("ans"), sx.Nat(0), sx.Nat(i), sx.N(d)))
+				answered = true
 			}
 		}
 		if !c.wait(D + c12Hang) {
@@ -416,6 +430,9 @@ func runC12Outage(long bool) (events []sx.V, fails []c12Fail, bad string) {
 			}
 			at(sx.L(sx.A("ret"), sx.Nat(i), sx.L(sx.A("ok"), sx.N(d))))
 		case c12Timeout:
+			if answered {
+				slow = true
+			}
 			at(sx.L(sx.A("ret"), sx.Nat(i), sx.A("expired")))
 		case c12SendErr:
 			// a failed send takes no time and starts the reconnect: in the merged history it
@@ -428,7 +445,7 @@ func runC12Outage(long bool) (events []sx.V, fails []c12Fail, bad string) {
 		return c.class()
 	}
 	if call() != c12Ok && bad == "" {
-		return nil, nil, "warm-up call failed"
+		return nil, nil, "warm-up call failed", true
 	}
 	l.down.Store(true)
 	at(sx.L(sx.A("drop"), sx.Nat(0), sx.Nat(1)))
@@ -443,10 +460,10 @@ func runC12Outage(long bool) (events []sx.V, fails []c12Fail, bad string) {
 		}
 	}
 	if bad != "" {
-		return nil, fails, bad
+		return nil, fails, bad, slow
 	}
 	if !started {
-		return nil, nil, "no send failed on the reset connection"
+		return nil, nil, "no send failed on the reset connection", slow
 	}
 	tRec := time.Now()
 	// while the server is away the calls fail fast
@@ -502,7 +519,7 @@ func runC12Outage(long bool) (events []sx.V, fails []c12Fail, bad string) {
 		events = append(events, ev.v)
 	}
 	events = append(events, sx.L(sx.A("reg"), sx.Nat(e.cl.VerifRegistrySize())))
-	return events, fails, bad
+	return events, fails, bad, slow
 }
 
 const (
@@ -526,7 +543,19 @@ func runC12BlackHole(phase, nconn int) (events []sx.V, fails []c12Fail, bad stri
 // phase 4 = the server is alive but ignores tcp.authentificate, phase 5 = it answers
 // it with two nonce packets back to back, the first malformed
 func runC12BlackHoleAuth(phase, nconn int, auth bool) (events []sx.V, fails []c12Fail, bad string) {
-	const D = 300 * time.Millisecond
+	var slow bool
+	D := 300 * time.Millisecond
+	for try := 0; try < 2; try++ {
+		events, fails, bad, slow = runC12BlackHoleAuthD(phase, nconn, auth, D)
+		if !slow {
+			break
+		}
+		D *= 4 // a stalled machine: once more with a longer client timeout
+	}
+	return events, fails, bad
+}
+
+func runC12BlackHoleAuthD(phase, nconn int, auth bool, D time.Duration) (events []sx.V, fails []c12Fail, bad string, slow bool) {
 	fail := func(key, what string) { fails = append(fails, c12Fail{key, what}) }
 	var authKey ed25519.PrivateKey
 	if auth {
@@ -535,7 +564,7 @@ func runC12BlackHoleAuth(phase, nconn int, auth bool) (events []sx.V, fails []c1
 	}
 	e, err := newC12EnvAuth(nconn, D, authKey)
 	if err != nil {
-		return nil, nil, "env: " + err.Error()
+		return nil, nil, "env: " + err.Error(), slow
 	}
 	defer e.close()
 	l := e.srv.lns[0]
@@ -558,11 +587,13 @@ func runC12BlackHoleAuth(phase, nconn int, auth bool) (events []sx.V, fails []c1
 		}
 		d := uint64(i+1)<<11 | 8
 		conn = -1
+		answered := false
 		if got {
 			conn = q.k
 			at(sx.L(sx.A("recv"), sx.Nat(i), sx.Nat(q.k)))
 			if fc, _ := e.srv.lns[q.k].current(); fc != nil && !fc.mute && e.srv.emit(q.k, c12Answer(q.id, c12Data(d))) == nil {
 				at(sx.L(sx.A("ans"), sx.Nat(q.k), sx.Nat(i), sx.N(d)))
+				answered = true
 			}
 		}
 		if !c.wait(D + c12Hang) {
@@ -578,6 +609,9 @@ func runC12BlackHoleAuth(phase, nconn int, auth bool) (events []sx.V, fails []c1
 			}
 			at(sx.L(sx.A("ret"), sx.Nat(i), sx.L(sx.A("ok"), sx.N(d))))
 		case c12Timeout:
+			if answered {
+				slow = true // an answered call misses its deadline only on a stalled machine
+			}
 			at(sx.L(sx.A("ret"), sx.Nat(i), sx.A("expired")))
 		case c12SendErr:
 			// a failed send takes no time and starts the reconnect: in the merged history it
@@ -591,7 +625,7 @@ func runC12BlackHoleAuth(phase, nconn int, auth bool) (events []sx.V, fails []c1
 	}
 	for n := 0; n < nconn; n++ {
 		if cls, _ := call(); cls != c12Ok {
-			return nil, fails, "warm-up call failed"
+			return nil, fails, "warm-up call failed", true
 		}
 	}
 	if phase == 4 {
@@ -612,10 +646,10 @@ func runC12BlackHoleAuth(phase, nconn int, auth bool) (events []sx.V, fails []c1
 		}
 	}
 	if bad != "" {
-		return nil, fails, bad
+		return nil, fails, bad, slow
 	}
 	if !started {
-		return nil, nil, "no send failed on the reset connection"
+		return nil, nil, "no send failed on the reset connection", slow
 	}
 	tRec := time.Now()
 	// meanwhile: calls return at once or by their deadline, and the healthy
@@ -632,7 +666,7 @@ func runC12BlackHoleAuth(phase, nconn int, auth bool) (events []sx.V, fails []c1
 	time.Sleep(time.Until(tRec.Add(1500 * time.Millisecond)))
 	probe(2 * nconn)
 	if bad != "" {
-		return nil, fails, bad
+		return nil, fails, bad, slow
 	}
 	if nconn > 1 && okOther == 0 {
 		fail("healthy-connection-unused", "no call was answered over the healthy connection while connection 0 was in the black hole")
@@ -660,6 +694,19 @@ func runC12BlackHoleAuth(phase, nconn int, auth bool) (events []sx.V, fails []c1
 				okc++
 			}
 		}
+		if phase == 5 && okc != 2*nconn {
+			// the server accepted an authentication whose first answer the client had
+			// rejected: one more reconnect may follow; the calls have to succeed in the end
+			okc = 0
+			for n := 0; n < 20 && okc < 2*nconn && bad == ""; n++ {
+				if cls, _ := call(); cls == c12Ok {
+					okc++
+				} else {
+					okc = 0
+					time.Sleep(300 * time.Millisecond)
+				}
+			}
+		}
 		if okc != 2*nconn {
 			fail("later-call-fails", fmt.Sprintf("%d of %d calls succeeded after the client got out of the black hole", okc, 2*nconn))
 		}
@@ -671,7 +718,7 @@ func runC12BlackHoleAuth(phase, nconn int, auth bool) (events []sx.V, fails []c1
 	l.mu.Unlock()
 	events = c12TimedHistoryUp(e.srv, t0, log, false, auth)
 	events = append(events, sx.L(sx.A("reg"), sx.Nat(e.cl.VerifRegistrySize())))
-	return events, fails, bad
+	return events, fails, bad, slow
 }
 
 // runC12Storm: many callers with large queries hit a connection that the server
@@ -708,6 +755,15 @@ func runC12StormObs(callers, size int, observe time.Duration) (fails []c12Fail, 
 			}
 		}
 		return c.wait(D+c12Hang) && c.class() == c12Ok
+	}
+	answeredOnce := answered
+	answered = func(i int) bool { // a stalled machine may cost one deadline: a real loss persists
+		for try := 0; try < 3; try++ {
+			if answeredOnce(i*10 + try) {
+				return true
+			}
+		}
+		return false
 	}
 	if !answered(0) {
 		return nil, "warm-up call failed"
@@ -789,6 +845,15 @@ func runC12Overlap(rounds, k int) (fails []c12Fail, bad string) {
 			}
 		}
 		return c.wait(D+c12Hang) && c.class() == c12Ok
+	}
+	answeredOnce := answered
+	answered = func(i int) bool { // a stalled machine may cost one deadline: a real loss persists
+		for try := 0; try < 3; try++ {
+			if answeredOnce(i*10 + try) {
+				return true
+			}
+		}
+		return false
 	}
 	if !answered(0) {
 		return nil, "warm-up call failed"
